@@ -1,4 +1,6 @@
 import LP.Props.C07
+import LP.Props.C07Exact
+import LP.Props.C07Inv
 #print axioms LP.ZAlg.image_encloses
 #print axioms LP.ZAlg.C07_select_sound
 #print axioms LP.C07_cmp
@@ -7,3 +9,12 @@ import LP.Props.C07
 #print axioms LP.Alg.sgn_sound
 #print axioms LP.Alg.valid_sound
 #print axioms LP.Alg.refine_sound
+#print axioms LP.ZAlg.eliminant_vanishes
+#print axioms LP.ZAlg.selectLoop_spec
+#print axioms LP.ZAlg.C07_result_exact
+#print axioms LP.ZAlg.C07_opEq_sound
+#print axioms LP.ZAlg.neg_sound
+#print axioms LP.ZAlg.inv_sound
+#print axioms LP.ZAlg.C07_sub_exact
+#print axioms LP.ZAlg.C07_div_exact
+#print axioms LP.ZAlg.isRootN_sound
